@@ -57,6 +57,8 @@ def main():
                 lines += ls
                 if rc == 1 and any(l.startswith('VIOLATION') for l in ls):
                     status = 'caught' if pr == prop else 'caught by ' + pr
+            if status == 'MISSED' and meta.get('not_pursued'):
+                status = 'caught? no - recorded as not pursued (see meta.json)'
             rows.append((sid, prop, status, 'demo clean/patched rc=%d/%d; %s' % (rc_c, rc_p, ' || '.join(lines)[-260:])))
             print(rows[-1], flush=True)
     finally:
